@@ -199,6 +199,13 @@ def python_variable_name(varname):
         return 'V_' + varname
     return varname
 
+def comment_line(text):
+    """Returns text as one comment line for the generated code; characters that
+    would end the comment (line breaks) or that Python refuses in a source text
+    (NUL) are written as escape sequences."""
+    text = text.replace('\r','\\r').replace('\n','\\n').replace('\0','\\0')
+    return '# ' + text + '\n'
+
 class YPPrologVisitor(prologVisitor):
     def __init__(self,context):
         self.context = context
@@ -225,7 +232,7 @@ class YPPrologVisitor(prologVisitor):
 
     def _debug(self,*args):
         if self.context.debug_parser:
-            self.context.outf.write('# ' + " ".join([str(a) for a in args]) + '\n')
+            self.context.outf.write(comment_line(" ".join([str(a) for a in args])))
 
     def visitProgram(self,ctx):
         clauses = {}
